@@ -30,7 +30,10 @@
 (*                                                                            *)
 (*       atoms : Seq([a, u]),        supercell atoms: unit atom, position*D   *)
 (*       p2s, s2p : Seq(Nat),        1-based supercell indices                *)
-(*       pmass : Seq(Nat),           masses of the primitive atoms            *)
+(*       pmass : Seq(Nat),           masses of the primitive atoms (rounded)  *)
+(*       pmassU : Seq(Nat),          ... in units of 10^-6 (rounded): a mass  *)
+(*                                   that is not the catalogue's integer is   *)
+(*                                   visible to TLC (JMasses)                 *)
 (*       svecs : Seq(Seq(SUBSET Z^3)), svecs[k][i], numerators over D, unit   *)
 (*       mult  : Seq(Seq(Nat)),      stored multiplicities                    *)
 (*       massOK : BOOLEAN            supercell and unit-cell masses follow    *)
@@ -175,6 +178,7 @@ ModelCase(d, repbox, sbox) ==
   IN  [id |-> d.id, entry |-> d.entry, S |-> d.S, Pn |-> d.Pn, Pd |-> d.Pd, atoms |-> atoms,
        p2s |-> p2s, s2p |-> s2p,
        pmass |-> [i \in 1..Len(p2s) |-> d.scale.t * C.atoms[atoms[p2s[i]].a].m],
+       pmassU |-> [i \in 1..Len(p2s) |-> 1000000 * d.scale.t * C.atoms[atoms[p2s[i]].a].m],
        svecs |-> sv,
        mult |-> [k \in 1..Len(atoms) |-> [i \in 1..Len(p2s) |-> Cardinality(sv[k][i])]],
        layout |-> d.layout, store |-> "model", fck |-> d.fck, scale |-> d.scale, massOK |-> TRUE,
@@ -424,7 +428,7 @@ JMultiplicity ==
   \A k \in 1..NS(x) : \A i \in 1..NP(x) : x.mult[k][i] = Cardinality(x.svecs[k][i])
 (* masses used for the weighting are those of the atoms the maps point at (times t after *)
 (* Phonopy.masses = t m), and the setter reached supercell and unit cell as well        *)
-JMasses == x.pmass = mass
+JMasses == x.pmass = mass /\ x.pmassU = [i \in 1..NP(x) |-> 1000000 * mass[i]]
 (* the logged maps are the ones the definitions give for the logged atom order: first    *)
 (* atom of each class modulo the primitive lattice (conformance; C04 owns the maps)      *)
 JConformsMaps ==
